@@ -4,6 +4,7 @@
 package vol
 
 import (
+	"errors"
 	"fmt"
 	"io"
 	"net/http/httptest"
@@ -11,9 +12,11 @@ import (
 	"path/filepath"
 	"strconv"
 	"strings"
+	"sync"
 
 	weed_server "github.com/chrislusf/seaweedfs/weed/server"
 	"github.com/chrislusf/seaweedfs/weed/storage"
+	"github.com/chrislusf/seaweedfs/weed/storage/backend"
 	"github.com/chrislusf/seaweedfs/weed/storage/needle"
 	"github.com/chrislusf/seaweedfs/weed/storage/types"
 	"github.com/chrislusf/seaweedfs/weed/util"
@@ -229,4 +232,107 @@ func ParseContent(a []string) *Content {
 	u := func(s string) uint64 { v, _ := strconv.ParseUint(s, 10, 64); return v }
 	return &Content{Data: hx.UnHex(a[0]), Flags: byte(u(a[1])), Name: hx.UnHex(a[2]), Mime: hx.UnHex(a[3]), Pairs: hx.UnHex(a[4]),
 		Lm: u(a[5]), TtlC: byte(u(a[6])), TtlU: byte(u(a[7]))}
+}
+
+// ---- CRC-32C collision twins ---------------------------------------------------------
+
+func crcOf(b []byte) uint32 { return uint32(needle.NewCRC(b)) }
+
+// Twin returns m' != m with len(m') == len(m) and the same needle checksum (CRC-32C), or nil
+// if len(m) < 5. CRC is affine over GF(2): flip bits given by `flip` (never all zero) in the
+// first len-4 bytes, then solve the 32x32 linear system for the last 4 bytes that cancels the
+// checksum difference. The result is verified with the real needle.NewCRC.
+func Twin(m []byte, flip []byte) []byte {
+	n := len(m)
+	if n < 5 {
+		return nil
+	}
+	p := append([]byte(nil), m...)
+	changed := false
+	for i := 0; i < n-4; i++ {
+		if i < len(flip) {
+			p[i] ^= flip[i]
+			changed = changed || flip[i] != 0
+		}
+	}
+	if !changed {
+		p[0] ^= 1
+	}
+	base := crcOf(p)
+	target := base ^ crcOf(m)
+	// effect of toggling bit k of the 4-byte tail
+	var rows [32]uint32 // rows[k] = effect vector
+	for k := 0; k < 32; k++ {
+		q := append([]byte(nil), p...)
+		q[n-4+k/8] ^= 1 << uint(k%8)
+		rows[k] = crcOf(q) ^ base
+	}
+	// Gaussian elimination: find x with XOR_{k in x} rows[k] = target
+	var basis [32]uint32 // basis[b] has leading bit b
+	var combo [32]uint32 // which tail bits produce basis[b]
+	for k := 0; k < 32; k++ {
+		v, c := rows[k], uint32(1)<<uint(k)
+		for b := 31; b >= 0 && v != 0; b-- {
+			if v>>uint(b)&1 == 0 {
+				continue
+			}
+			if basis[b] == 0 {
+				basis[b], combo[b] = v, c
+				v = 0
+				break
+			}
+			v ^= basis[b]
+			c ^= combo[b]
+		}
+	}
+	x := uint32(0)
+	t := target
+	for b := 31; b >= 0; b-- {
+		if t>>uint(b)&1 == 1 {
+			if basis[b] == 0 {
+				return nil
+			}
+			t ^= basis[b]
+			x ^= combo[b]
+		}
+	}
+	for k := 0; k < 32; k++ {
+		if x>>uint(k)&1 == 1 {
+			p[n-4+k/8] ^= 1 << uint(k%8)
+		}
+	}
+	if crcOf(p) != crcOf(m) || string(p) == string(m) {
+		return nil
+	}
+	return p
+}
+
+// ---- fault injection: a DataBackend whose first Sync blocks, then fails ----------------
+
+type syncFaultBackend struct {
+	backend.BackendStorageFile
+	once    sync.Once
+	Entered chan struct{} // closed when the first Sync has been entered
+	Release chan struct{} // close it to let that Sync return its error
+}
+
+func (b *syncFaultBackend) Sync() error {
+	first := false
+	b.once.Do(func() { first = true })
+	if !first {
+		return b.BackendStorageFile.Sync()
+	}
+	close(b.Entered)
+	<-b.Release
+	return errors.New("input/output error")
+}
+
+// InjectSyncFault wraps the volume's data file (Volume.DataBackend is an exported field): the
+// next fsync — the one the batched worker issues after appending a batch — blocks until
+// release() is called and then fails, which makes the worker roll the batch back.
+func (e *Env) InjectSyncFault() (entered <-chan struct{}, release func()) {
+	v := e.Store.GetVolume(Vid)
+	fb := &syncFaultBackend{BackendStorageFile: v.DataBackend, Entered: make(chan struct{}), Release: make(chan struct{})}
+	v.DataBackend = fb
+	return fb.Entered, func() { close(fb.Release) }
 }
